@@ -794,6 +794,9 @@ class Emitter:
         if op == '*' and T == 'unsigned __int128':
             self.cur['externs'].add('AVM_MUL')
             return 'AVM_MUL_u128(%s, %s)' % (self.E(a), self.E(b))
+        if op == '*' and T == '__int128':
+            self.cur['externs'].add('AVM_MUL')
+            return 'AVM_MUL_i128(%s, %s)' % (self.E(a), self.E(b))
         if op == '*' and T in DIVT:
             # integer multiplication through a macro (default: the C operator): lets a code-level proof treat the multiplier
             # as an uninterpreted, functionally consistent operation
